@@ -1,0 +1,106 @@
+//go:build verif
+
+// Contracts for the verification machinery in /verif (govc). Comment-only file.
+
+package memory
+
+// ---- lock discipline (C10): every access to these fields needs s.mu held ---------------
+//@ guarded_by memoryStore.balances mu
+//@ guarded_by memoryStore.nodes mu
+//@ guarded_by memoryStore.accounts mu
+//@ guarded_by memoryStore.trials mu
+//@ guarded_by memoryStore.nonces mu
+
+// ---- ledger sums (C01): ghost sums of credit over the two balance maps ----------------
+//@ measure acreditsum over map[store.Account]store.Balance : bigval(v.Credit)
+//@ measure tcreditsum over map[store.NodeID]store.Balance : bigval(v.Credit)
+
+// ---- how the in-memory driver realises the abstract store state ------------------------
+//@ abstraction *memoryStore
+//@ absdef reg[k]      = has(this.nodes, k)
+//@ absdef node[k]     = this.nodes[k].Node
+//@ absdef linked[k]   = has(this.accounts, k)
+//@ absdef acct[k]     = this.accounts[k]
+//@ absdef acredit[k]  = bigval(this.balances[k].Credit)
+//@ absdef adeposit[k] = bigval(this.balances[k].Deposit)
+//@ absdef tcredit[k]  = bigval(this.trials[k].Credit)
+//@ absdef tdeposit[k] = bigval(this.trials[k].Deposit)
+//@ absdef total       = sum(acreditsum, this.balances) + sum(tcreditsum, this.trials)
+//@ absdef nonce[k]    = this.nonces[k]
+
+// snapshot (C10): the digit buffers of a returned balance are not buffers the store keeps (and later updates in place)
+//@ pure detached(s *memoryStore, b store.Balance) bool =
+//@      (forall k store.Account :: bigbuf(b.Credit) == 0 || (bigbuf(s.balances[k].Credit) != bigbuf(b.Credit) && bigbuf(s.balances[k].Deposit) != bigbuf(b.Credit)))
+//@   && (forall k store.Account :: bigbuf(b.Deposit) == 0 || (bigbuf(s.balances[k].Credit) != bigbuf(b.Deposit) && bigbuf(s.balances[k].Deposit) != bigbuf(b.Deposit)))
+//@   && (forall n store.NodeID :: bigbuf(b.Credit) == 0 || (bigbuf(s.trials[n].Credit) != bigbuf(b.Credit) && bigbuf(s.trials[n].Deposit) != bigbuf(b.Credit)))
+//@   && (forall n store.NodeID :: bigbuf(b.Deposit) == 0 || (bigbuf(s.trials[n].Credit) != bigbuf(b.Deposit) && bigbuf(s.trials[n].Deposit) != bigbuf(b.Deposit)))
+
+// representation invariant: established by New, preserved by every method
+//@ pure wf(s *memoryStore) bool = s.balances != nil && s.nodes != nil && s.accounts != nil && s.trials != nil && s.nonces != nil
+
+//@ func New
+//@ property C12
+//@ ensures [wf] result != nil && wf(result) && !held(result.mu)
+
+//@ func (*memoryStore).CheckAndSaveNonce
+//@ property C05 C10 C12
+//@ implements store.NonceStore.CheckAndSaveNonce
+//@ requires wf(s) && !held(s.mu)
+//@ ensures [wf] wf(s) && !held(s.mu)
+//@ ensures [complete] {C05} old(s.nonces[ID]) < nonce && (store.ExpireNonce <= 0 || nonce > clock() - store.ExpireNonce) ==> err == nil
+//@ ensures [others-untouched] {C05} forall k string :: k != ID ==> s.nonces[k] == old(s.nonces[k]) && has(s.nonces, k) == old(has(s.nonces, k))
+
+//@ func (*memoryStore).GetNodeBalance
+//@ property C10 C12
+//@ implements store.BalanceStore.GetNodeBalance
+//@ requires wf(s) && !held(s.mu)
+//@ ensures [wf] wf(s) && !held(s.mu)
+//@ ensures [registered-ok] {C12} has(s.nodes, nodeID) ==> err == nil
+//@ ensures [snapshot] {C10} detached(s, result)
+
+//@ func (*memoryStore).AddNodeBalance
+//@ property C01 C10 C12
+//@ implements store.BalanceStore.AddNodeBalance
+//@ requires wf(s) && !held(s.mu)
+//@ ensures [wf] wf(s) && !held(s.mu)
+//@ ensures [registered-ok] {C12} old(has(s.nodes, nodeID)) ==> err == nil
+
+//@ func (*memoryStore).GetAccountBalance
+//@ property C10 C12
+//@ implements store.BalanceStore.GetAccountBalance
+//@ requires wf(s) && !held(s.mu)
+//@ ensures [wf] wf(s) && !held(s.mu)
+//@ ensures [never-fails] {C12} err == nil
+//@ ensures [snapshot] {C10} detached(s, result)
+
+//@ func (*memoryStore).AddAccountBalance
+//@ property C01 C10 C12
+//@ implements store.BalanceStore.AddAccountBalance
+//@ requires wf(s) && !held(s.mu)
+//@ ensures [wf] wf(s) && !held(s.mu)
+//@ ensures [never-fails] {C12} err == nil
+
+//@ func (*memoryStore).AddAccountNode
+//@ property C01 C10 C12
+//@ implements store.AccountStore.AddAccountNode
+//@ requires wf(s) && !held(s.mu)
+//@ ensures [wf] wf(s) && !held(s.mu)
+//@ ensures [registered-ok] {C12} old(has(s.nodes, nodeID)) ==> err == nil
+
+//@ func (*memoryStore).IsAccountNode
+//@ property C10 C12
+//@ implements store.AccountStore.IsAccountNode
+//@ requires wf(s) && !held(s.mu)
+//@ ensures [wf] wf(s) && !held(s.mu)
+
+//@ func (*memoryStore).GetNode
+//@ property C10 C12
+//@ implements store.PoolStore.GetNode
+//@ requires wf(s) && !held(s.mu)
+//@ ensures [wf] wf(s) && !held(s.mu)
+
+//@ func (*memoryStore).SetNode
+//@ property C10 C12
+//@ implements store.PoolStore.SetNode
+//@ requires wf(s) && !held(s.mu)
+//@ ensures [wf] wf(s) && !held(s.mu)
